@@ -108,9 +108,9 @@ def run_job(job):
 def job_list(tier):
     jobs = []
     for fl in ('f64', 'f32'):
-        ps = range(1, 19) if tier == 'thorough' else (1, 2, 9, 17, 18)
+        ps = range(1, 19)            # every scale in both tiers (a table entry or shift constant for one scale must not hide from the quick tier)
         for p in ps:
-            bs = range(1, 128) if tier == 'thorough' else (1, 2, 3, 10, 24, 25, 53, 54, 55, 64, 100, 126, 127)
+            bs = range(1, 128) if tier == 'thorough' else sorted(set((1, 2, 3, 10, 23, 24, 25, 26, 52, 53, 54, 55, 56, 63, 64, 65, 100, 126, 127)) | set(range(4, 128, 7)))
             for b in bs:
                 for sgn in ('pos', 'neg'):
                     jobs.append((fl, p, b, sgn))
